@@ -93,7 +93,8 @@ void string_to_hw_address(const string& hw_addr, uint8_t* output, size_t output_
         *(output++) = tmp;
         count++;
         if (i < hw_addr.size()) {
-            if (hw_addr[i] == ':') {
+            // A separator is only valid if another group can follow it
+            if (hw_addr[i] == ':' && count < output_size) {
                 i++;
             }
             else {
